@@ -147,9 +147,12 @@ func (s *store) Consume(ctx context.Context, consumerName string, f func(uint64,
 			if err != nil {
 				return err
 			}
+			vhook("consume.cb.ret", newOffset)
 			offset = newOffset
 			Encoding.PutUint64(stateOffset, offset)
+			vhook("consume.persisted", offset)
 			s.maybeTruncate(offset)
+			vhook("consume.truncated", offset)
 		}
 
 		return nil
